@@ -457,6 +457,7 @@ fn main() {
         "replay" => cmd_replay(&args),
         "builder-history" => cmd_builder_history(&args),
         "resolver" => cmd_resolver(&args),
+        "convert" => cmd_convert(&args),
         _ => {
             eprintln!("unknown command");
             exit(2)
@@ -863,4 +864,229 @@ fn cmd_resolver(_args: &[String]) {
     println!("{}", serde_json::to_string_pretty(&res).unwrap());
     for c in &out { println!("REPLAY: violated {}", c); }
     exit(if out.is_empty() { 0 } else { 1 });
+}
+
+
+// ---------------------------------------------------------------------------------------------
+// C20: bounded stand-in for `convert_record_definition` (closure parameters, impl Iterator returns,
+// retain, two BTreeMaps: Verus rejects it, Kani did not terminate).  Every source definition built by
+// a request sequence of bounded length is replayed through the real helper into a native builder
+// (two strategies) and into a generic builder; the helper's postcondition is checked on each.
+
+#[derive(Clone, Debug, PartialEq)]
+enum SrcReq {
+    Add(usize, usize), // name index, shape index
+    Remove(usize),
+    Close(usize), // strategy index
+}
+
+const CSHAPES: [(usize, usize); 3] = [(1, 1), (4, 4), (0, 1)];
+
+fn build_source(h: &[SrcReq]) -> Option<RecordDefinition<NativeDatumDetails>> {
+    let mut b = GenericRecordDefinitionBuilder::<NativeDatumDetails>::new();
+    let mut k = 0;
+    for r in h {
+        match r {
+            SrcReq::Add(n, sh) => {
+                let (size, align) = CSHAPES[*sh];
+                if b.add_datum(NAMES[*n], NativeDatumDetails::new(usize::MAX, TypeInfo { name: format!("T{}_{}", size, align), size, align }, *sh == 0)).is_err() {
+                    return None;
+                }
+                k += 1;
+            }
+            SrcReq::Remove(id) => {
+                if *id >= k || b.remove_datum(DatumId::from(*id)).is_err() {
+                    return None;
+                }
+            }
+            SrcReq::Close(s) => {
+                b.close_record_variant_with(strategy_by_name(if *s == 0 { "simple" } else { "basic" }));
+            }
+        }
+    }
+    // only closed histories give a definition
+    match h.last() {
+        Some(SrcReq::Close(_)) => Some(b.build()),
+        _ => None,
+    }
+}
+
+fn check_conversion(src: &RecordDefinition<NativeDatumDetails>, target: usize) -> Vec<String> {
+    use std::collections::BTreeMap;
+    use truc::record::definition::builder::native::NativeRecordDefinitionBuilder;
+    use truc::record::definition::convert::convert_record_definition;
+    use truc::record::definition::RecordVariantId;
+    use truc::record::type_resolver::HostTypeResolver;
+    let mut out = Vec::new();
+    // (variant id -> [(name, type name, size, align, uninit, target datum id)]) of the target
+    let mut tgt_variants: Vec<(String, Vec<(String, Option<(String, usize, usize, bool)>, usize)>)> = Vec::new();
+    let map: Result<BTreeMap<RecordVariantId, RecordVariantId>, String>;
+    if target < 2 {
+        let mut nb = NativeRecordDefinitionBuilder::new(HostTypeResolver);
+        map = convert_record_definition(
+            src,
+            |b: &mut NativeRecordDefinitionBuilder<HostTypeResolver>, d| b.copy_datum(d),
+            |b: &mut NativeRecordDefinitionBuilder<HostTypeResolver>, id| b.remove_datum(id),
+            |b: &mut NativeRecordDefinitionBuilder<HostTypeResolver>| if target == 0 { b.close_record_variant_with(simple) } else { b.close_record_variant_with(append_data) },
+            &mut nb,
+        );
+        let def = nb.build();
+        for v in def.variants() {
+            tgt_variants.push((format!("{}", v.id()), v.data().map(|d| {
+                let dd = &def[d];
+                (dd.name().to_owned(), Some((dd.details().type_name().to_owned(), dd.details().size(), dd.details().type_align(), dd.details().allow_uninit())), idx(d))
+            }).collect()));
+        }
+    } else {
+        use truc::record::definition::builder::generic::variant::append_data as g_append;
+        let mut gb = GenericRecordDefinitionBuilder::<()>::new();
+        map = convert_record_definition(
+            src,
+            |b: &mut GenericRecordDefinitionBuilder<()>, d| b.add_datum(d.name(), ()),
+            |b: &mut GenericRecordDefinitionBuilder<()>, id| b.remove_datum(id),
+            |b: &mut GenericRecordDefinitionBuilder<()>| b.close_record_variant_with(g_append),
+            &mut gb,
+        );
+        let def = gb.build();
+        for v in def.variants() {
+            tgt_variants.push((format!("{}", v.id()), v.data().map(|d| (def[d].name().to_owned(), None, idx(d))).collect()));
+        }
+    }
+    let map = match map {
+        Ok(m) => m,
+        Err(e) => {
+            out.push(format!("C20: the replay of an accepted definition failed: {}", e));
+            return out;
+        }
+    };
+    let nsrc = src.variants().count();
+    if tgt_variants.len() != nsrc {
+        out.push(format!("C20: {} source variants replayed into {} target variants", nsrc, tgt_variants.len()));
+    }
+    if map.len() != nsrc {
+        out.push(format!("C20: the returned map has {} entries for {} source variants", map.len(), nsrc));
+    }
+    // source datum id -> target datum id, must be a function and injective
+    let mut d_map: BTreeMap<usize, usize> = BTreeMap::new();
+    let mut seen_targets = BTreeSet::new();
+    for v in src.variants() {
+        let tv = match map.get(&v.id()) {
+            Some(t) => format!("{}", t),
+            None => { out.push(format!("C20: source variant {} is not in the map", v.id())); continue; }
+        };
+        if !seen_targets.insert(tv.clone()) {
+            out.push(format!("C20: two source variants are paired with target variant {}", tv));
+        }
+        let tdata = match tgt_variants.iter().find(|(id, _)| *id == tv) {
+            Some((_, d)) => d,
+            None => { out.push(format!("C20: the map names a target variant {} that does not exist", tv)); continue; }
+        };
+        let sdata: Vec<DatumId> = v.data().collect();
+        if sdata.len() != tdata.len() {
+            out.push(format!("C20: source variant {} has {} data, its target {} has {}", v.id(), sdata.len(), tv, tdata.len()));
+        }
+        for d in &sdata {
+            let sd = &src[*d];
+            match tdata.iter().find(|(n, _, _)| n == sd.name()) {
+                None => out.push(format!("C20: datum {:?} of source variant {} has no namesake in target variant {}", sd.name(), v.id(), tv)),
+                Some((_, info, tid)) => {
+                    if let Some((tn, size, align, uninit)) = info {
+                        if tn != sd.details().type_name() || *size != sd.details().size() || *align != sd.details().type_align() || *uninit != sd.details().allow_uninit() {
+                            out.push(format!("C20: datum {:?}: type information differs after the replay", sd.name()));
+                        }
+                    }
+                    match d_map.get(&idx(*d)) {
+                        Some(prev) if prev != tid => out.push(format!("C20: source datum {} corresponds to target data {} and {} in different variants", idx(*d), prev, tid)),
+                        _ => { d_map.insert(idx(*d), *tid); }
+                    }
+                }
+            }
+        }
+    }
+    let distinct: BTreeSet<usize> = d_map.values().cloned().collect();
+    if distinct.len() != d_map.len() {
+        out.push("C20: two source data correspond to the same target datum".to_owned());
+    }
+    out
+}
+
+fn src_to_json(r: &SrcReq) -> Value {
+    match r { SrcReq::Add(n, s) => json!({"add": NAMES[*n], "shape": [CSHAPES[*s].0, CSHAPES[*s].1]}), SrcReq::Remove(d) => json!({"remove": d}), SrcReq::Close(s) => json!({"close": if *s == 0 { "simple" } else { "basic" }}) }
+}
+
+fn src_from_json(v: &Value) -> SrcReq {
+    if let Some(n) = v.get("add") {
+        let sh = CSHAPES.iter().position(|s| s.0 as u64 == v["shape"][0].as_u64().unwrap() && s.1 as u64 == v["shape"][1].as_u64().unwrap()).unwrap();
+        SrcReq::Add(NAMES.iter().position(|x| *x == n.as_str().unwrap()).unwrap(), sh)
+    } else if let Some(d) = v.get("remove") {
+        SrcReq::Remove(d.as_u64().unwrap() as usize)
+    } else {
+        SrcReq::Close(if v["close"] == "simple" { 0 } else { 1 })
+    }
+}
+
+fn cmd_convert(args: &[String]) {
+    if let Some(p) = arg(args, "--replay") {
+        let v: Value = serde_json::from_str(&fs::read_to_string(p).unwrap()).unwrap();
+        let h: Vec<SrcReq> = v["history"].as_array().unwrap().iter().map(src_from_json).collect();
+        let target = v["target"].as_u64().unwrap() as usize;
+        println!("replaying: source definition from {} requests, target {}", h.len(), ["native/simple", "native/append_data", "generic"][target]);
+        let src = build_source(&h).expect("source history");
+        println!("{}", src);
+        let o = panic::catch_unwind(panic::AssertUnwindSafe(|| check_conversion(&src, target))).unwrap_or_else(|_| vec!["C20: the replay panicked".to_owned()]);
+        for c in &o { println!("REPLAY: violated {}", c); }
+        if o.is_empty() { println!("REPLAY: no clause violated on the current tree"); }
+        exit(if o.is_empty() { 0 } else { 1 });
+    }
+    let maxlen: usize = arg(args, "--max-len").map_or(5, |s| s.parse().unwrap());
+    let mut alphabet = Vec::new();
+    for n in 0..NAMES.len() { for s in 0..CSHAPES.len() { alphabet.push(SrcReq::Add(n, s)); } }
+    for d in 0..3 { alphabet.push(SrcReq::Remove(d)); }
+    alphabet.push(SrcReq::Close(0));
+    alphabet.push(SrcReq::Close(1));
+    let mut sources = 0u64;
+    let mut conversions = 0u64;
+    let mut multi = 0u64;
+    let mut best: Option<(Vec<SrcReq>, usize, Vec<String>)> = None;
+    let mut frontier: Vec<Vec<SrcReq>> = vec![vec![]];
+    let mut sample: Option<Value> = None;
+    'outer: for _len in 1..=maxlen {
+        let mut next = Vec::new();
+        for h in &frontier {
+            for r in &alphabet {
+                // prune: no two closes in a row (the second is a no-op), removals of unknown ids
+                if let (Some(SrcReq::Close(_)), SrcReq::Close(_)) = (h.last(), r) { continue; }
+                let mut h2 = h.clone();
+                h2.push(r.clone());
+                if let SrcReq::Close(_) = r {
+                    if let Some(src) = build_source(&h2) {
+                        sources += 1;
+                        let nv = src.variants().count();
+                        if nv > 1 { multi += 1; }
+                        for target in 0..3 {
+                            conversions += 1;
+                            let o = panic::catch_unwind(panic::AssertUnwindSafe(|| check_conversion(&src, target))).unwrap_or_else(|_| vec!["C20: the replay panicked".to_owned()]);
+                            if !o.is_empty() {
+                                best = Some((h2.clone(), target, o));
+                                break 'outer;
+                            }
+                        }
+                        if sample.is_none() && nv == 2 && src.datum_definitions().count() >= 2 {
+                            sample = Some(json!({"history": h2.iter().map(src_to_json).collect::<Vec<_>>(), "definition": src.to_string()}));
+                        }
+                    } else {
+                        continue;
+                    }
+                }
+                // invalid requests end a history
+                let valid = { let mut probe = h2.clone(); probe.push(SrcReq::Close(0)); build_source(&probe).is_some() || matches!(r, SrcReq::Close(_)) };
+                if valid { next.push(h2); }
+            }
+        }
+        frontier = next;
+    }
+    let res = json!({"sources": sources, "conversions": conversions, "multi_variant_sources": multi, "max_len": maxlen, "sample": sample,
+        "violation": best.as_ref().map(|(h, t, o)| json!({"history": h.iter().map(src_to_json).collect::<Vec<_>>(), "target": t, "clauses": o}))});
+    println!("{}", serde_json::to_string_pretty(&res).unwrap());
+    exit(if best.is_some() { 1 } else { 0 });
 }
